@@ -74,7 +74,8 @@ type c29Cfg struct {
 	Compress bool  `json:"compress"`
 	Limit    int64 `json:"limit"`
 	DLimit   int64 `json:"dlimit"`
-	RBuf     int   `json:"rbuf"`
+	RBuf     int   `json:"rbuf"`                  // effective size of c.br (what the model is given)
+	RBufCfg  int   `json:"read_buffer_configured"` // >= 0: ReadBufferSize handed to newConn (0 = default); -1: a bufio.Reader of size RBuf is handed in (upgradeH2 style)
 	Close1   bool  `json:"close1_strict"`
 }
 
@@ -149,8 +150,14 @@ func c29TakeWritten(pc *c29Conn, server bool) ([]c29Ev, bool) {
 }
 
 func c29NewConn(cfg c29Cfg, pc *c29Conn) *Conn {
-	br := bufio.NewReaderSize(pc, cfg.RBuf)
-	c := newConn(pc, cfg.Server, 0, 0, nil, br, nil)
+	var c *Conn
+	if cfg.RBufCfg >= 0 {
+		// the constructor path of Upgrader.upgradeH1 / Dialer: newConn allocates the reader and
+		// guarantees room for a control frame whatever size was configured
+		c = newConn(pc, cfg.Server, cfg.RBufCfg, 0, nil, nil, nil)
+	} else {
+		c = newConn(pc, cfg.Server, 0, 0, nil, bufio.NewReaderSize(pc, cfg.RBuf), nil)
+	}
 	if cfg.Compress {
 		c.newCompressionWriter = compressNoContextTakeover
 		c.newDecompressionReader = decompressNoContextTakeover
@@ -164,12 +171,28 @@ func c29NewConn(cfg c29Cfg, pc *c29Conn) *Conn {
 	return c
 }
 
+// c29Effective fills in the read buffer size the constructor really gives the connection.
+func c29Effective(cfg c29Cfg) c29Cfg {
+	if cfg.RBufCfg >= 0 {
+		cfg.RBuf = c29NewConn(cfg, &c29Conn{}).br.Size()
+	}
+	return cfg
+}
+
 // c29Run feeds the stream to a real Conn.
 func c29Run(cfg c29Cfg, stream []byte) (evs []c29Ev, wellFormedWrites bool) {
+	return c29RunPaused(cfg, stream, -1, 0, nil)
+}
+
+// c29RunPaused is c29Run, except that message number pauseAt (0-based) is read in two steps:
+// NextReader + the first head bytes, then pause() runs (another connection may read meanwhile),
+// then the rest of the message.
+func c29RunPaused(cfg c29Cfg, stream []byte, pauseAt int, head int, pause func()) (evs []c29Ev, wellFormedWrites bool) {
 	pc := &c29Conn{}
 	pc.in.Write(stream)
 	c := c29NewConn(cfg, pc)
 	wellFormedWrites = true
+	nmsg := 0
 	for iter := 0; iter < 100000; iter++ {
 		var mt int
 		var p []byte
@@ -181,8 +204,33 @@ func c29Run(cfg c29Cfg, stream []byte) (evs []c29Ev, wellFormedWrites bool) {
 					pan = fmt.Sprint(r)
 				}
 			}()
-			mt, p, err = c.ReadMessage()
+			if nmsg != pauseAt {
+				mt, p, err = c.ReadMessage()
+				return
+			}
+			var rd io.Reader
+			mt, rd, err = c.NextReader()
+			if err != nil {
+				return
+			}
+			hb := make([]byte, head)
+			n, herr := io.ReadFull(rd, hb)
+			p = hb[:n]
+			pause()
+			if herr == io.EOF || herr == io.ErrUnexpectedEOF {
+				herr = nil // the message is shorter than head (streams of this class are conforming)
+			}
+			if herr != nil {
+				err = herr
+				return
+			}
+			var rest []byte
+			rest, err = io.ReadAll(rd)
+			p = append(p, rest...)
 		}()
+		if err == nil {
+			nmsg++
+		}
 		w, ok := c29TakeWritten(pc, cfg.Server)
 		if !ok {
 			wellFormedWrites = false
@@ -769,8 +817,11 @@ func c29Mutate(r *rand.Rand, cfg c29Cfg, frames []c29Frame) ([]c29Frame, string)
 			return frames, "rsv1-continuation"
 		}
 	case 3:
-		if i := pick(func(f c29Frame) bool { return isFirst(f) && f.Rsv == 0 }); i >= 0 {
+		if i := pick(func(f c29Frame) bool { return isFirst(f) && f.Rsv == 0 && f.Fin }); i >= 0 { // unfragmented: the flate reader fails inside the first frame
 			frames[i].Rsv |= 0x40
+			// reserved block type: the flate reader fails at once (random bytes could contain an early
+			// final block, which is outside the model: the rest of the message would be left unread)
+			frames[i].Payload = append([]byte{0x06}, frames[i].Payload...)
 			return frames, "rsv1-data-uncompressed"
 		}
 	case 4:
@@ -873,7 +924,12 @@ func c29Hex(b []byte) string {
 }
 
 func c29Emit(w *verifW, i int, cfg c29Cfg, stream []byte, class string) {
+	cfg = c29Effective(cfg)
 	obs, wok := c29Run(cfg, stream)
+	c29EmitObs(w, i, cfg, stream, class, obs, wok)
+}
+
+func c29EmitObs(w *verifW, i int, cfg c29Cfg, stream []byte, class string, obs []c29Ev, wok bool) {
 	var tbl []c29Infl
 	vStrict, _ := c29Walk(cfg, true, stream, &tbl)
 	_, big := c29Walk(cfg, false, stream, &tbl)
@@ -914,11 +970,12 @@ func c29PickCfg(r *rand.Rand, close1 bool, h2size int) c29Cfg {
 	cfg := c29Cfg{Server: r.Intn(5) > 0, Compress: r.Intn(3) == 0, RBuf: 4096, Close1: close1}
 	switch r.Intn(10) {
 	case 0:
-		cfg.RBuf = h2size // the HTTP/2 extended CONNECT path of upgradeH2 (16 in the unfixed source)
+		cfg.RBuf, cfg.RBufCfg = h2size, -1 // the HTTP/2 extended CONNECT path of upgradeH2 (16 in the unfixed source)
 	case 1:
-		cfg.RBuf = 125
-	case 2:
-		cfg.RBuf = 256
+		cfg.RBuf, cfg.RBufCfg = 125, -1
+	case 2, 3, 4:
+		// configured Upgrader.ReadBufferSize / WebsocketConfig.ReadBufferSize, through newConn
+		cfg.RBufCfg = []int{1, 16, 17, 32, 64, 100, 124, 125, 126, 200, 1024, 4096}[r.Intn(12)]
 	}
 	switch r.Intn(6) {
 	case 0:
@@ -932,6 +989,68 @@ func c29PickCfg(r *rand.Rand, close1 bool, h2size int) c29Cfg {
 		cfg.DLimit = int64(1 + r.Intn(300))
 	}
 	return cfg
+}
+
+// c29CompMsg builds one compressed data message (possibly fragmented, possibly with control frames
+// between the fragments).
+func c29CompMsg(r *rand.Rand, n int) []c29Frame {
+	op := byte(1 + r.Intn(2))
+	var p []byte
+	if op == 1 {
+		p = c29Text(r, n)
+	} else {
+		p = make([]byte, n)
+		for i := range p {
+			p[i] = "abcdefghijklmnop"[r.Intn(16)]
+		}
+	}
+	z := c29Deflate(p, []int{1, 6, 9}[r.Intn(3)])
+	var frames []c29Frame
+	parts := c29Split(r, z)
+	for i, part := range parts {
+		f := c29Frame{Fin: i == len(parts)-1, Op: 0, Masked: true, Payload: part}
+		if i == 0 {
+			f.Op, f.Rsv = op, 0x40
+		}
+		r.Read(f.Key[:])
+		frames = append(frames, f)
+		if !f.Fin && r.Intn(4) == 0 {
+			frames = append(frames, c29Ctl(r, true))
+		}
+	}
+	return frames
+}
+
+// c29Pair: two server connections with permessage-deflate read conforming sessions; connection A
+// has read its first message completely and is in the middle of its second one (NextReader + a few
+// bytes) when connection B reads its whole session; then A goes on.  Each connection must still
+// behave as a conforming reader of its own stream (the flate readers are pooled across connections).
+func c29Pair(w *verifW, i int, r *rand.Rand, close1 bool) {
+	cfg := c29Effective(c29Cfg{Server: true, Compress: true, RBuf: 4096, Close1: close1})
+	var fa, fb []c29Frame
+	fa = append(fa, c29CompMsg(r, 1+r.Intn(300))...)
+	fa = append(fa, c29CompMsg(r, 200+r.Intn(700))...)
+	for n := r.Intn(3); n > 0; n-- {
+		fa = append(fa, c29CompMsg(r, r.Intn(200))...)
+	}
+	for n := 1 + r.Intn(3); n > 0; n-- {
+		fb = append(fb, c29CompMsg(r, 50+r.Intn(600))...)
+	}
+	if r.Intn(2) == 0 {
+		fa = append(fa, c29Close(r, true))
+	}
+	if r.Intn(2) == 0 {
+		fb = append(fb, c29Close(r, true))
+	}
+	sa, sb := c29Encode(fa), c29Encode(fb)
+	var obsB []c29Ev
+	var wokB bool
+	obsA, wokA := c29RunPaused(cfg, sa, 1, 1+r.Intn(60), func() { obsB, wokB = c29Run(cfg, sb) })
+	if r.Intn(3) == 0 {
+		c29EmitObs(w, i, cfg, sb, "pair:B", obsB, wokB)
+	} else {
+		c29EmitObs(w, i, cfg, sa, "pair:A", obsA, wokA)
+	}
 }
 
 func TestVerifC29(t *testing.T) {
@@ -969,13 +1088,15 @@ func TestVerifC29(t *testing.T) {
 		{srv, mk(c29Frame{Fin: true, Op: 1, Masked: true, Key: k, Payload: []byte{0xff, 0xfe}}), "text-utf8"},
 		{srv, []byte{0x82, 0xff, 0x80, 0, 0, 0, 0, 0, 0, 1, 1, 2, 3, 4}, "len64-msb"},
 		{withC(srv, func(c *c29Cfg) { c.Limit = 100 }), []byte{0x82, 0xff, 0x80, 0, 0, 0, 0, 0, 0, 1, 1, 2, 3, 4}, "len64-msb-limit"},
-		{withC(srv, func(c *c29Cfg) { c.RBuf = h2size }), mk(c29Frame{Fin: true, Op: 9, Masked: true, Key: k, Payload: bytes.Repeat([]byte("a"), 17)}), "h2-ping-17"},
-		{withC(srv, func(c *c29Cfg) { c.RBuf = h2size }), mk(c29Frame{Fin: true, Op: 8, Masked: true, Key: k, Payload: append([]byte{3, 232}, bytes.Repeat([]byte("a"), 15)...)}), "h2-close-reason-15"},
-		{withC(srv, func(c *c29Cfg) { c.RBuf = h2size }), mk(c29Frame{Fin: true, Op: 9, Masked: true, Key: k, Payload: bytes.Repeat([]byte("a"), 16)}), "h2-ping-16"},
+		{withC(srv, func(c *c29Cfg) { c.RBuf, c.RBufCfg = h2size, -1 }), mk(c29Frame{Fin: true, Op: 9, Masked: true, Key: k, Payload: bytes.Repeat([]byte("a"), 17)}), "h2-ping-17"},
+		{withC(srv, func(c *c29Cfg) { c.RBuf, c.RBufCfg = h2size, -1 }), mk(c29Frame{Fin: true, Op: 8, Masked: true, Key: k, Payload: append([]byte{3, 232}, bytes.Repeat([]byte("a"), 15)...)}), "h2-close-reason-15"},
+		{withC(srv, func(c *c29Cfg) { c.RBuf, c.RBufCfg = h2size, -1 }), mk(c29Frame{Fin: true, Op: 9, Masked: true, Key: k, Payload: bytes.Repeat([]byte("a"), 16)}), "h2-ping-16"},
 		{withC(srv, func(c *c29Cfg) { c.Limit = 4 }), mk(c29Frame{Op: 2, Masked: true, Key: k, Payload: []byte("abc")}, c29Frame{Fin: true, Op: 0, Masked: true, Key: k, Payload: []byte("de")}), "limit-fragmented"},
 		{srv, mk(c29Frame{Op: 1, Masked: true, Key: k, Payload: []byte{0xe2, 0x82}}, c29Frame{Fin: true, Op: 0, Masked: true, Key: k, Payload: []byte{0xac}}), "utf8-split"},
 		{srv, mk(c29Frame{Fin: true, Op: 8, Masked: true, Key: k, Payload: []byte{3, 232, 'o', 'k'}}, c29Frame{Fin: true, Op: 2, Masked: true, Key: k, Payload: []byte("x")}), "close-then-data"},
 		{srv, []byte{0xB3, 0x01, 0x41}, "many-errors"},
+		{withC(srv, func(c *c29Cfg) { c.RBufCfg = 32 }), mk(c29Frame{Fin: true, Op: 9, Masked: true, Key: k, Payload: bytes.Repeat([]byte("p"), 100)}, c29Frame{Fin: true, Op: 1, Masked: true, Key: k, Payload: []byte("after ping")}), "configured-32-ping-100"},
+		{withC(srv, func(c *c29Cfg) { c.RBufCfg = 16 }), mk(c29Frame{Fin: true, Op: 8, Masked: true, Key: k, Payload: append([]byte{3, 232}, bytes.Repeat([]byte("r"), 123)...)}), "configured-16-close-125"},
 		{withC(srv, func(c *c29Cfg) { c.Limit = 100 }), []byte{0x02, 0x82, 1, 2, 3, 4, 0x60, 0x60, 0x80, 0xff, 0x7f, 0xff, 0xff, 0xff, 0xff, 0xff, 0xff, 0xff, 1, 2, 3, 4, 0x62, 0x66}, "msglen63"},
 	}
 	for i := 0; i < w.N; i++ {
@@ -988,7 +1109,11 @@ func TestVerifC29(t *testing.T) {
 			continue
 		}
 		cfg := c29PickCfg(r, close1, h2size)
-		fam := r.Intn(20)
+		fam := r.Intn(22)
+		if fam >= 20 {
+			c29Pair(w, i, r, close1)
+			continue
+		}
 		if fam >= 7 {
 			// the decompressed-size limit is modelled per message; the implementation may trip it
 			// earlier inside a message, which only shows on truncated or violating streams
@@ -1011,7 +1136,7 @@ func TestVerifC29(t *testing.T) {
 			frames, _ := c29Session(r, cfg, false, true)
 			frames, name := c29Mutate(r, cfg, frames)
 			s := c29Encode(frames)
-			if r.Intn(6) == 0 {
+			if r.Intn(6) == 0 && name != "rsv1-data-uncompressed" { // (flate fails before a truncation is noticed)
 				s = s[:r.Intn(len(s)+1)]
 				name += "+trunc"
 			}
